@@ -38,6 +38,11 @@ def _sub(text):
     text = re.sub(r"is_partial=(True|False)", "is_partial=_", text)
     text = text.replace("super().partial_fit(", "super()._(").replace("super().fit(", "super()._(")
     text = re.sub(r"context_start=(len\(self\.\w+\)|\w+)", "context_start=_", text)
+    # the same calls with positional arguments
+    text = re.sub(r"self\._fit_operation\((\w+), (len\(self\.\w+\)|\w+)\)", r"self._fit_operation(\1, context_start=_)",
+                  text)
+    text = re.sub(r"self\._set_arms_as_trained\((decisions=)?(\w+), (is_partial=)?(True|False|_)\)",
+                  r"self._set_arms_as_trained(decisions=\2, is_partial=_)", text)
     return " ".join(text.split())
 
 
